@@ -81,7 +81,7 @@ pub fn run(run: &Run) {
             let flags = (cell & 31) as u8;
             let msin = ((cell >> 5) & 255) as u8;
             let storage = if (cell >> 13) & 1 == 1 { g::StorageMode::Always } else { g::StorageMode::Never };
-            let strat = g::message(g::MsgParams { storage, large: false, pool_ids: false, cell: Some((flags, msin)) });
+            let strat = g::message(g::MsgParams { storage, large: false, pool_ids: false, cell: Some((flags, msin)), free_noar: true });
             rep.evaluations += 1;
             match sampler.check(&strat, &|m: &RMsg| check_encode(m)) {
                 Ok((m, p)) => {
@@ -102,7 +102,7 @@ pub fn run(run: &Run) {
         rep.classes = vec![("grid-cell", 256)];
         rep
     });
-    run.random("encode", run.cases(150_000, 2_000_000), 0.5, || g::message(g::MsgParams::default()).prop_map(Case::Encode), check);
+    run.random("encode", run.cases(150_000, 2_000_000), 0.5, || g::message(g::MsgParams { free_noar: true, ..Default::default() }).prop_map(Case::Encode), check);
     run.random("decode", run.cases(400_000, 8_000_000), 0.4, decode_strategy, check);
 }
 
